@@ -263,18 +263,18 @@ def rule_init_complete(ctx, fl):
 
 def run(ctx):
     ctx.unit = 'wrap'
-    rule5_wrapper(ctx)
+    ctx.attempt(rule5_wrapper, ctx)
     for fl in flavours(ctx):
         ctx.unit = fl
         ctx.doc('C06.7', 'native API forwarding: each public entry point of this property reaches the implementation of the same name with its parameters in order and returns its result (sibling slips such as trylock -> lock, signal -> broadcast, swapped arguments)')
-        lib.native_forwarding(ctx, 'C06.7', fl, lambda n: n.startswith(('myth_barrier_', 'myth_barrierattr_')), floor=4)
-        rule_init_complete(ctx, fl)
+        ctx.attempt(lib.native_forwarding, ctx, 'C06.7', fl, lambda n: n.startswith(('myth_barrier_', 'myth_barrierattr_')), floor=4)
+        ctx.attempt(rule_init_complete, ctx, fl)
         v = ctx.view(NATIVE, roots=['myth_barrier_wait_body', 'myth_wake_many_from_stack', 'myth_block_on_stack'],
                      stops=('myth_sleep_stack_pop', 'myth_sleep_stack_push', 'myth_queue_push', 'myth_queue_pop'), flavour=fl)
-        rule1(ctx, v)
-        rule2(ctx, v)
-        rule3(ctx, fl, v)
-        rule4(ctx, v)
+        ctx.attempt(rule1, ctx, v)
+        ctx.attempt(rule2, ctx, v)
+        ctx.attempt(rule3, ctx, fl, v)
+        ctx.attempt(rule4, ctx, v)
 
 
 SYNC = 'src/myth_sync_func.h'
